@@ -658,6 +658,140 @@ Section PolicyFacts.
     apply (PForward rules) n e = (set_rcpts e (map (fwd_rcpt rules) (rcpts e)) (rid e), None, n).
   Proof. reflexivity. Qed.
 
+  (* a rule that MATCHES (changes > 0) but reproduces the same text still wins: the scan stops,
+     whatever the later rules would do to the recipient *)
+  Lemma forward_identity_match_stops : forall pre ru post r ch,
+    Forall (fun q => hits q r = false) pre -> subn ru r = (r, ch) -> r <> [] -> 0 < ch ->
+    fwd_rcpt (pre ++ ru :: post) r = r /\ fwd_rcpt (pre ++ ru :: post) r = fwd_rcpt (pre ++ [ru]) r.
+  Proof.
+    intros pre ru post r ch Hp Hs Hr Hc.
+    assert (Hh : hits ru r = true).
+    { unfold hits. rewrite Hs. destruct r as [|b r']; [congruence|]. cbn [null negb andb].
+      apply N.ltb_lt. exact Hc. }
+    rewrite (forward_first_match pre ru post r Hp Hh), (forward_first_match pre ru [] r Hp Hh), Hs.
+    split; reflexivity.
+  Qed.
+
+  (* --- Date / Message-Id: presence of the NAME decides, not the value --- *)
+  Lemma has_header_intro : forall name nm v h1 h2,
+    ieq nm name = true -> has_header name (h1 ++ (nm, v) :: h2) = true.
+  Proof.
+    intros name nm v h1 h2 H. unfold has_header. rewrite existsb_app. cbn [existsb fst]. rewrite H.
+    rewrite orb_true_l. apply orb_true_r.
+  Qed.
+
+  Lemma present_suppresses : forall nm v h1 h2 n e,
+    hdr e = h1 ++ (nm, v) :: h2 ->
+    (ieq nm n_date = true -> apply PDate n e = (e, None, n))
+    /\ (ieq nm n_mid = true -> apply PMid n e = (e, None, n)).
+  Proof.
+    intros nm v h1 h2 n e E. split; intros H; cbn [Policy.apply]; rewrite E, (has_header_intro _ nm v h1 h2 H); reflexivity.
+  Qed.
+
+  Lemma names_named : forall name h, map fst (named name h) = filter (fun nm => ieq nm name) (map fst h).
+  Proof.
+    intros name h. unfold named. induction h as [|x h IH]; cbn [filter map]; [reflexivity|].
+    destruct (ieq (fst x) name); cbn [map]; rewrite IH; reflexivity.
+  Qed.
+
+  Lemma named_app : forall name a b, named name (a ++ b) = named name a ++ named name b.
+  Proof. intros. unfold named. apply filter_app. Qed.
+
+  Lemma named_nil : forall name h, filter (fun nm => ieq nm name) (map fst h) = [] -> named name h = [].
+  Proof. intros name h H. rewrite <- names_named in H. eapply map_eq_nil. exact H. Qed.
+
+  Lemma has_name_false_filter : forall name ns, has_name name ns = false -> filter (fun nm => ieq nm name) ns = [].
+  Proof.
+    intros name ns. unfold has_name. induction ns as [|x ns IH]; cbn [existsb filter]; [reflexivity|].
+    intros H. apply orb_false_iff in H. destruct H as [H1 H2]. rewrite H1. exact (IH H2).
+  Qed.
+
+  Lemma filter_repeat_received : forall name k,
+    ieq n_received name = false -> filter (fun nm => ieq nm name) (repeat n_received k) = [].
+  Proof. intros name k H. induction k as [|k IH]; cbn [repeat filter]; [reflexivity|]. rewrite H. exact IH. Qed.
+
+  Lemma has_name_snoc : forall name ns x, has_name name (ns ++ [x]) = has_name name ns || ieq x name.
+  Proof. intros. unfold has_name. rewrite existsb_app. cbn [existsb]. rewrite orb_false_r. reflexivity. Qed.
+
+  (* a chain appends no Date to a message that has one, and exactly one (at its first AddDateHeader)
+     to a message that has none; same for Message-Id *)
+  Lemma appended_date_present : forall chain ns,
+    has_name n_date ns = true -> filter (fun nm => ieq nm n_date) (appended rule chain ns) = [].
+  Proof.
+    induction chain as [|p chain IH]; intros ns H; [reflexivity|].
+    destruct p; cbn [Policy.appended]; try (apply IH; exact H).
+    - rewrite H. apply IH. exact H.
+    - destruct (has_name n_mid ns); [apply IH; exact H|].
+      cbn [filter]. change (ieq n_mid n_date) with false. cbv iota. apply IH. rewrite has_name_snoc, H. reflexivity.
+  Qed.
+
+  Lemma appended_mid_present : forall chain ns,
+    has_name n_mid ns = true -> filter (fun nm => ieq nm n_mid) (appended rule chain ns) = [].
+  Proof.
+    induction chain as [|p chain IH]; intros ns H; [reflexivity|].
+    destruct p; cbn [Policy.appended]; try (apply IH; exact H).
+    - destruct (has_name n_date ns); [apply IH; exact H|].
+      cbn [filter]. change (ieq n_date n_mid) with false. cbv iota. apply IH. rewrite has_name_snoc, H. reflexivity.
+    - rewrite H. apply IH. exact H.
+  Qed.
+
+  Lemma appended_date_absent : forall chain ns,
+    has_name n_date ns = false ->
+    filter (fun nm => ieq nm n_date) (appended rule chain ns) = if existsb (is_date rule) chain then [n_date] else [].
+  Proof.
+    induction chain as [|p chain IH]; intros ns H; [reflexivity|].
+    destruct p; cbn [Policy.appended existsb is_date orb]; try (apply IH; exact H).
+    - rewrite H. cbn [filter]. change (ieq n_date n_date) with true. cbv iota.
+      rewrite appended_date_present; [reflexivity|]. rewrite has_name_snoc. apply orb_true_r.
+    - destruct (has_name n_mid ns); [apply IH; exact H|].
+      cbn [filter]. change (ieq n_mid n_date) with false. cbv iota. apply IH. rewrite has_name_snoc, H. reflexivity.
+  Qed.
+
+  Lemma appended_mid_absent : forall chain ns,
+    has_name n_mid ns = false ->
+    filter (fun nm => ieq nm n_mid) (appended rule chain ns) = if existsb (is_mid rule) chain then [n_mid] else [].
+  Proof.
+    induction chain as [|p chain IH]; intros ns H; [reflexivity|].
+    destruct p; cbn [Policy.appended existsb is_mid orb]; try (apply IH; exact H).
+    - destruct (has_name n_date ns); [apply IH; exact H|].
+      cbn [filter]. change (ieq n_date n_mid) with false. cbv iota. apply IH. rewrite has_name_snoc, H. reflexivity.
+    - rewrite H. cbn [filter]. change (ieq n_mid n_mid) with true. cbv iota.
+      rewrite appended_mid_present; [reflexivity|]. rewrite has_name_snoc. apply orb_true_r.
+  Qed.
+
+  (* every written envelope of every chain: a Date / Message-Id field that is present in the original
+     (with ANY value, also the empty one, in any capitalisation) stays the only such field(s), untouched *)
+  Lemma present_kept : forall chain n0 e x, fresh_input e n0 ->
+    In x (results (run_policies chain n0 e)) ->
+    (has_header n_date (hdr e) = true -> named n_date (hdr x) = named n_date (hdr e))
+    /\ (has_header n_mid (hdr e) = true -> named n_mid (hdr x) = named n_mid (hdr e)).
+  Proof.
+    intros chain n0 e x Hf Hx. destruct (headers_rule chain n0 e x Hf Hx) as (pre & suf & E & Ep & Es).
+    split; intros H; rewrite has_header_names in H; rewrite E, !named_app.
+    - rewrite (named_nil n_date pre), (named_nil n_date suf); [apply app_nil_r| |].
+      + rewrite Es. apply appended_date_present. exact H.
+      + rewrite Ep. apply filter_repeat_received. reflexivity.
+    - rewrite (named_nil n_mid pre), (named_nil n_mid suf); [apply app_nil_r| |].
+      + rewrite Es. apply appended_mid_present. exact H.
+      + rewrite Ep. apply filter_repeat_received. reflexivity.
+  Qed.
+
+  (* ... and a message without one gets exactly one iff the chain has the policy (however often) *)
+  Lemma absent_added_once : forall chain n0 e x, fresh_input e n0 ->
+    In x (results (run_policies chain n0 e)) ->
+    (has_header n_date (hdr e) = false ->
+       map fst (named n_date (hdr x)) = if existsb (is_date rule) chain then [n_date] else [])
+    /\ (has_header n_mid (hdr e) = false ->
+       map fst (named n_mid (hdr x)) = if existsb (is_mid rule) chain then [n_mid] else []).
+  Proof.
+    intros chain n0 e x Hf Hx. destruct (headers_rule chain n0 e x Hf Hx) as (pre & suf & E & Ep & Es).
+    split; intros H; rewrite has_header_names in H; rewrite E, !named_app, !map_app, !names_named, Ep, Es.
+    - rewrite filter_repeat_received by reflexivity. rewrite (has_name_false_filter _ _ H).
+      cbn [app]. apply appended_date_absent. exact H.
+    - rewrite filter_repeat_received by reflexivity. rewrite (has_name_false_filter _ _ H).
+      cbn [app]. apply appended_mid_absent. exact H.
+  Qed.
+
   (* a policy returning its input among its outputs *)
   Lemma self_is_noop_at_head : forall chain n0 e,
     run_policies (PSelf :: chain) n0 e = run_policies chain n0 e.
@@ -708,4 +842,22 @@ Example ex_run :
   /\ map (fun x => map fst (hdr x)) (results s)
      = repeat [n_received; [100;65;84;69]; n_mid] 4
   /\ failed s = false.
+Proof. vm_compute. repeat split. Qed.
+
+(* a matching identity rule in front of a catch-all: c -> c, then c -> c@y; the catch-all alone rewrites *)
+Example ex_identity_stops :
+  toy_subn ([99], [99]) [99] = ([99], 1)
+  /\ fwd_rcpt _ toy_subn [([99], [99]); ([99], [99;64;121])] [99] = [99]
+  /\ fwd_rcpt _ toy_subn [([99], [99;64;121])] [99] = [99;64;121].
+Proof. vm_compute. repeat split. Qed.
+
+(* an EMPTY "DATE" field below another field, an empty "message-id": present, nothing is added anywhere *)
+Definition ex_env_empty : env :=
+  mkenv 0 [115] [[97;64;88]; [98;64;120]] 1 [([83], [120]); ([68;65;84;69], []); ([109;101;115;115;97;103;101;45;105;100], [])] 2 3 [104;105].
+Example ex_empty_present :
+  ieq [68;65;84;69] n_date = true /\ ieq [109;101;115;115;97;103;101;45;105;100] n_mid = true
+  /\ has_header n_date (hdr ex_env_empty) = true /\ has_header n_mid (hdr ex_env_empty) = true
+  /\ let s := run_policies _ toy_subn toy_lower toy_val toy_val toy_val [PDate; PSplit; PMid; PReceived; PDate; PMid] 4 ex_env_empty in
+     map (fun x => map fst (hdr x)) (results s)
+     = repeat [n_received; [83]; [68;65;84;69]; [109;101;115;115;97;103;101;45;105;100]] 2.
 Proof. vm_compute. repeat split. Qed.
